@@ -20,9 +20,14 @@ ENTRY int verif_blob_header(const char* data, unsigned len, int header_blob, uns
 }
 
 // decode one PrimitiveBlock message; dump of the entities goes to out.  rc 0 ok, 1 pbf_error, 2 protozero, 3 other
+ENTRY int verif_primitive_block_mask(const char* data, unsigned len, unsigned mask, int read_meta, unsigned char* out, unsigned cap, unsigned* outlen);
 ENTRY int verif_primitive_block(const char* data, unsigned len, int read_meta, unsigned char* out, unsigned cap, unsigned* outlen) {
+    return verif_primitive_block_mask(data, len, osmium::osm_entity_bits::all, read_meta, out, cap, outlen);
+}
+// same with an entity mask (osm_entity_bits)
+ENTRY int verif_primitive_block_mask(const char* data, unsigned len, unsigned mask, int read_meta, unsigned char* out, unsigned cap, unsigned* outlen) {
     try {
-        PBFPrimitiveBlockDecoder decoder{protozero::data_view{data, len}, osmium::osm_entity_bits::all, read_meta ? osmium::io::read_meta::yes : osmium::io::read_meta::no};
+        PBFPrimitiveBlockDecoder decoder{protozero::data_view{data, len}, static_cast<osmium::osm_entity_bits::type>(mask), read_meta ? osmium::io::read_meta::yes : osmium::io::read_meta::no};
         osmium::memory::Buffer b = decoder();
         Dump d{out, cap}; d.buffer_exact(b); *outlen = d.len;
         return d.overflow ? 9 : 0;
